@@ -630,6 +630,7 @@ func (s *syncer) inferBisyncNamespaceMode(cli client.Redis, checkpointName strin
 // loadBisyncMigrationSeed extracts one authoritative recovery point from an
 // existing namespace so the checkpoint hash can be repointed to a new mode.
 func (s *syncer) loadBisyncMigrationSeed(cli client.Redis, checkpointName string, ids []string, currentMode checkpoint.BisyncMode, recoverySlots []uint16) (*checkpoint.BisyncNamespaceSeed, error) {
+	var seed *checkpoint.BisyncNamespaceSeed
 	switch currentMode {
 	case checkpoint.BisyncModeSync:
 		// Sync already stores a recoverable latest record, so migration can
@@ -639,7 +640,9 @@ func (s *syncer) loadBisyncMigrationSeed(cli client.Redis, checkpointName string
 			return nil, err
 		}
 		if best != nil {
-			return checkpoint.NewBisyncNamespaceSeedFromRecord(best)
+			if seed, err = checkpoint.NewBisyncNamespaceSeedFromRecord(best); err != nil {
+				return nil, err
+			}
 		}
 	case checkpoint.BisyncModePipeline, checkpoint.BisyncModeParallel:
 		// `pipeline` and `parallel` may need journal replay after the saved frontier snapshot to
@@ -663,13 +666,29 @@ func (s *syncer) loadBisyncMigrationSeed(cli client.Redis, checkpointName string
 		if frontier != nil && frontier.UnitSeq > 0 {
 			// Sync recovery only needs one authoritative start point, so migration
 			// does not rebuild the full per-slot latest set ahead of time.
-			return checkpoint.NewBisyncNamespaceSeedFromFrontier(frontier, 0)
+			if seed, err = checkpoint.NewBisyncNamespaceSeedFromFrontier(frontier, 0); err != nil {
+				return nil, err
+			}
 		}
 	default:
 		return nil, fmt.Errorf("unsupported bisync mode %q", currentMode)
 	}
+	if seed == nil {
+		return nil, fmt.Errorf("no bisync authoritative migration seed found: checkpoint(%s), mode(%s), ids(%v)", checkpointName, currentMode, ids)
+	}
 
-	return nil, fmt.Errorf("no bisync authoritative migration seed found: checkpoint(%s), mode(%s), ids(%v)", checkpointName, currentMode, ids)
+	// A full resync records its position at the root checkpoint of the namespace only. When
+	// that is ahead of the mode specific state it is the position a start resumes from (see
+	// bisyncStartPoint), so it is the position the new namespace has to carry.
+	root, _, err := checkpoint.GetCheckpoint(cli, checkpointName, ids)
+	if err != nil {
+		return nil, err
+	}
+	if root != nil && root.Offset > seed.Offset && checkpoint.MatchBisyncRunID(root.RunId, ids) {
+		seed.RunID = root.RunId
+		seed.Offset = root.Offset
+	}
+	return seed, nil
 }
 
 // seedBisyncNamespace writes the minimum recovery state required for a fresh
